@@ -108,6 +108,12 @@ func c15Verify(c *kernel.Ctx, image string, acked []*c15Msg, inflight *c15Msg, w
 		break
 	}
 	c.Probe("images-verified")
+	// abstract state: kind of image x how much had been acknowledged (log2 bucket) x whether a store was cut
+	b := 0
+	for n := len(acked); n > 0; n >>= 1 {
+		b++
+	}
+	c.State(fmt.Sprintf("%s acked~2^%d inflight=%v", what, b, inflight != nil))
 	if len(acked) > 0 {
 		c.NonTrivial()
 	}
